@@ -181,6 +181,18 @@ def programs():
     ps.append(("elem:e_downcast_ref:mutate-root", "e_downcast_ref", "mutate-source", True,
                fn(pre + ["let e = v.at(0);", "let r = e.downcast_ref::<String>().unwrap();", "drop(e);", "v.clear();", "use_it(r);"]),
                fn(pre + ["let e = v.at(0);", "let r = e.downcast_ref::<String>().unwrap();", "drop(e);", "use_it(r);"])))
+    # byte views of an element handle are borrows of the handle, not of the vector
+    pre = ["let mut v = mk();", "let mut e = v.at_mut(0);"]
+    ps.append(("elem:e_as_bytes_mut:two-mutable-paths", "e_as_bytes_mut", "two-mutable-paths", False,
+               fn(pre + ["let a = e.as_bytes_mut();", "let b = e.as_bytes_mut();", "use_it(a);", "use_it(b);"]),
+               fn(pre + ["let a = e.as_bytes_mut();", "use_it(a);"])))
+    ps.append(("elem:e_as_bytes:mutate-under-shared-view", "e_as_bytes", "read-under-exclusive", False,
+               fn(pre + ["let a = e.as_bytes();", "let m = e.downcast_mut::<String>().unwrap();", "m.push('x');", "use_it(a);"]),
+               fn(pre + ["let a = e.as_bytes();", "use_it(a);", "let m = e.downcast_mut::<String>().unwrap();", "m.push('x');"])))
+    pre = ["let mut v = mk();", "let e = v.drain(..).next().unwrap();"]
+    ps.append(("elem:e_as_bytes:outlives-drained-element", "e_as_bytes", "escape", False,
+               fn(pre + ["let a = e.as_bytes();", "drop(e);", "use_it(a.len());"]),
+               fn(pre + ["let a = e.as_bytes();", "use_it(a.len());", "drop(e);"])))
     return ps
 
 def gen_lean(rows, mrows=None):
